@@ -107,6 +107,21 @@ def make_searcher(case, ruledb=None, classqueue=None):
     kw = {}
     if classqueue is not None:
         kw["classqueue"] = classqueue(pack) if callable(classqueue) else classqueue
+    if case.get("prefill") is not None:
+        # the documented classdb= argument: a class database that already knows some
+        # classes (possibly the start class itself, at a label other than 0)
+        from comb_spec_searcher.class_db import ClassDB
+
+        classdb = ClassDB(type(start))
+        for i, d in enumerate(case["prefill"]):
+            if i == case.get("prefill_start_at", -1):
+                classdb.get_label(start)
+            c = U.build_class(d, compressed=case.get("compressed", False))
+            if type(c) is type(start):
+                classdb.get_label(c)
+        if case.get("prefill_start_at", -1) >= len(case["prefill"]):
+            classdb.get_label(start)
+        kw["classdb"] = classdb
     searcher = CombinatorialSpecificationSearcher(
         start,
         pack,
